@@ -496,6 +496,8 @@ def family(frm, to):
     type only where the payload of the same container changes; tuples and functions are kept apart from other types."""
     if to == frm:
         return "same type"
+    if to == "Nosuch":
+        return "unknown type name"
     if to == "unbound":
         return "unbound name"
     if to in ("Fun", "Ctor"):
@@ -560,11 +562,11 @@ class Edits:
         for pi, (pn, ph) in enumerate(params):
             for h in HINT_ALTS:
                 if h != ph:
-                    self.add(path + (2, pi, 1), f"annotation of param{who}: {ph}→{h}", h)
+                    self.add(path + (2, pi, 1), f"annotation of param{who}: {ph}→{family(ph, h)}", h, f"annotation of param{who} {pn}: {ph}→{h}")
             self.add(path + (2, pi, 0), f"param{who} renamed (uses become unbound)", "zz")
         for h in HINT_ALTS:
             if h != ret:
-                self.add(path + (3,), f"annotation of return{who}: {ret}→{h}", h)
+                self.add(path + (3,), f"annotation of return{who}: {ret}→{family(ret, h)}", h, f"annotation of return{who}: {ret}→{h}")
         if params:
             self.add(path + (2,), f"arity: param dropped from definition{who}", params[:-1])
         self.add(path + (2,), f"arity: param added to definition{who}", params + [["extra", "Int"]])
@@ -583,7 +585,7 @@ class Edits:
                 t = typeof(e, sc, self.sigs)
                 for h in HINT_ALTS:
                     if h != hint:
-                        self.add(p + (2,), f"annotation of let: {hint or 'none'}→{h}", h)
+                        self.add(p + (2,), f"annotation of let: {hint or 'none (inferred ' + t + ')'}→{family(hint or t, h)}", h, f"annotation of let: {hint or 'none'}→{h}")
                 if hint is not None:
                     self.add(p + (2,), f"annotation of let: {hint}→none", None)
                 self.add(p + (1,), "let renamed (uses become unbound)", "zz")
@@ -701,10 +703,10 @@ class Edits:
             for pi, (pn, ph) in enumerate(params):
                 for h in HINT_ALTS:
                     if h != ph:
-                        self.add(path + (1, pi, 1), f"annotation of closure param: {ph}→{h}", h)
+                        self.add(path + (1, pi, 1), f"annotation of closure param: {ph}→{family(ph, h)}", h, f"annotation of closure param: {ph}→{h}")
             for h in HINT_ALTS:
                 if h != e[2]:
-                    self.add(path + (2,), f"annotation of closure return: {e[2]}→{h}", h)
+                    self.add(path + (2,), f"annotation of closure return: {e[2]}→{family(e[2], h)}", h, f"annotation of closure return: {e[2]}→{h}")
             self.add(path + (1,), "arity: closure param dropped", params[:-1])
             self.add(path + (1,), "arity: closure param added", params + [["extra", "Int"]])
             sc = dict(scope)
